@@ -482,8 +482,15 @@ def _server_structural(ctx):
                 ctx.violation("server/split-before-unquote", q + " | self.postpath", "the request path is unquoted BEFORE it is split at '/': %2F creates extra segments / '..' pieces")
                 return
         raise Abstain("postpath is not built by map()/a comprehension over a split")
-    ok = per_piece == "unquote" and isinstance(split_expr, ast.Call) and call_attr(split_expr) == "split" and [src(a_) for a_ in split_expr.args] == ["b'/'"] and \
-        "unquote" not in src(split_expr.func.value)
+    for _ in range(3):          # a named temporary holding the pieces (the normaliser substitutes it when it can prove it pure)
+        if isinstance(split_expr, ast.Name):
+            ds = [s_.value for s_ in walk_local(f) if isinstance(s_, ast.Assign) and any(isinstance(t, ast.Name) and t.id == split_expr.id for t in s_.targets)]
+            if len(ds) != 1:
+                raise Abstain(f"{len(ds)} definitions of `{split_expr.id}`, the sequence postpath is built from")
+            split_expr = ds[0]
+    if not (isinstance(split_expr, ast.Call) and call_attr(split_expr) == "split"):
+        raise Abstain(f"the sequence postpath is built from is `{src(split_expr)}`, not a split")
+    ok = per_piece == "unquote" and [src(a_) for a_ in split_expr.args] == ["b'/'"] and "unquote" not in src(split_expr.func.value)
     ctx.check(ok, "server/split-before-unquote", q + " | self.postpath",
               "the request path is not split at '/' before each piece is unquoted: %2F would create extra segments / '..' pieces that bypass per-segment checks")
     f = norm_function(ctx, RS, "getChildForRequest")
